@@ -48,7 +48,7 @@ def main():
         res['checks'] = {}
         for c in [pid] + also:
             t0 = time.time()
-            rc, out = sh('./check %s --tier %s' % (c, tier), cwd='/verif', timeout=7200)
+            rc, out = sh('./check %s --tier %s' % (c, tier), cwd=os.path.dirname(os.path.dirname(os.path.abspath(__file__))), timeout=7200)
             viol = [l for l in out.splitlines() if l.startswith('VIOLATION')]
             res['checks'][c] = {'exit': rc, 'violations': len(viol), 'first': viol[:2], 'wall_s': round(time.time() - t0),
                                 'summary': [l for l in out.splitlines() if l.startswith(c + ' ')][:1],
